@@ -177,9 +177,11 @@ def translate_restrict():
         raise TranslateError('_reix: ' + repr([t2.src(s) for s in rx]))
     rs = _body(t2.find_def(tree, 'restrict', 'Mesh'))
     src = [t2.src(s) for s in rs]
+    # ALL nodes of the kept elements are renumbered (second-order meshes); the returned map is reduced to the vertices
     if src[0] != 'elements = self.normalize_elements(elements)' \
-            or src[1] != 'p, t, ix = self._reix(self.t[:, elements])':
-        raise TranslateError('restrict: head: ' + repr(src[:2]))
+            or src[1] != 'p, t, ix = self._reix(self.dofs.element_dofs[:, elements])' \
+            or src[2] != 'ix = ix[np.unique(t[:self.t.shape[0]])]':
+        raise TranslateError('restrict: head: ' + repr(src[:3]))
     ifs = [s for s in rs if isinstance(s, ast.If)]
     sub = [s for s in ifs if t2.src(s.test) == 'not skip_subdomains and self.subdomains is not None']
     bnd = [s for s in ifs if t2.src(s.test) == 'not skip_boundaries and self.boundaries is not None']
@@ -199,7 +201,7 @@ def translate_restrict():
                                    'elements))']:
         raise TranslateError('remove_elements: ' + repr([t2.src(s) for s in rm]))
     un = _body(t2.find_def(tree, 'remove_unused_nodes', 'Mesh'))
-    if [t2.src(s) for s in un] != ['p, t, _ = self._reix(self.t)', 'return replace(self, doflocs=p, t=t)']:
+    if [t2.src(s) for s in un] != ['p, t, _ = self._reix(self.dofs.element_dofs)', 'return replace(self, doflocs=p, t=t)']:
         raise TranslateError('remove_unused_nodes: ' + repr([t2.src(s) for s in un]))
     return '''(* Mesh._reix *)
 Definition gen_reix_uniq (ix : mat nat) : list nat := unique_nat (concat ix).              (* np.unique(ix) *)
@@ -210,7 +212,10 @@ Definition gen_reix_table (ix : mat nat) : list nat :=
 Definition gen_reix_t (ix : mat nat) : mat nat := map (map (fun v => nth v (gen_reix_table ix) 0)) ix.   (* t[ix] *)
 Definition gen_reix_p {P} (d : P) (p : list P) (ix : mat nat) : list P := gather d p (gen_reix_uniq ix). (* self.p[:, ixuniq] *)
 (* Mesh.restrict *)
-Definition gen_restrict_ix {A} (d : A) (t : mat A) (elements : list nat) : mat A := take_cols d t elements.   (* self.t[:, elements] *)
+Definition gen_restrict_ix {A} (d : A) (edofs : mat A) (elements : list nat) : mat A := take_cols d edofs elements.   (* self.dofs.element_dofs[:, elements] *)
+(* ix = ix[np.unique(t[:M])] : old numbers of the vertices of the restricted mesh, M = number of vertex rows *)
+Definition gen_restrict_vertex_map (M : nat) (ix : mat nat) : list nat :=
+  gather 0 (reix_uniq ix) (unique_nat (concat (firstn M (reix_t ix)))).
 Definition gen_restrict_subdomain (nt : nat) (elements sub : list nat) : list Z :=
   let newt := repeat (- 1)%Z nt in                                                        (* zeros(nt) - 1 *)
   let newt := scatter elements (map Z.of_nat (seq 0 (length elements))) newt in           (* newt[elements] = arange *)
